@@ -303,10 +303,10 @@ func ruleOffsetPlumbing(w *core.World, r *core.Report) {
 		ok := false
 		for _, in := range core.Instrs(f) {
 			ret, isRet := in.(*ssa.Return)
-			if !isRet || len(ret.Results) != 3 || !core.IsNilConst(ret.Results[2]) {
+			if !isRet || len(ret.Results) != 3 || !core.IsNilConst(core.RetVal(ret, 2)) {
 				continue
 			}
-			ld, isLd := ret.Results[1].(*ssa.UnOp)
+			ld, isLd := core.RetVal(ret, 1).(*ssa.UnOp)
 			if isLd && core.IsFieldLoad(ld, "client.Decoder", "offset") && dec != nil && core.Dominates(dec, ld) {
 				ok = true
 			} else {
